@@ -58,6 +58,9 @@ func (k msgServer) CreateReporter(goCtx context.Context, msg *types.MsgCreateRep
 		return nil, errors.New("address already exists")
 	}
 
+	if msg.CommissionRate.IsNegative() {
+		return nil, errors.New("commission rate must not be negative")
+	}
 	if msg.CommissionRate.GT(math.LegacyNewDec(100)) {
 		return nil, errors.New("commission rate must be LTE 100 as that is a 100 percent commission rate")
 	}
